@@ -26,6 +26,18 @@ MUTANTS = [
      "            THEN [Quiet(s, Done) EXCEPT !.setbuf = Upd(s.setbuf, KeyOf(m), [ack |-> m.ack, p |-> m.p, sup |-> FALSE])]",
      "            THEN [Quiet(s, Done) EXCEPT !.setbuf = Upd(s.setbuf, KeyOf(m), [ack |-> m.ack, p |-> m.p, sup |-> FALSE]), !.react = <<m>>]",
      "MC_sleepbuf", "MC_sleepbuf.cfg", {"MaxDepth = 4": "MaxDepth = 2"}, "ParkedNotWritten"),
+    ("flush releases every node's commands (seen by the ledger refinement)", "MySensorsCore.tla",
+     "        ELSE {[rel |-> parked, relFail |-> {}, heldRel |-> heldn, heldFail |-> {}],",
+     "        ELSE {[rel |-> DOMAIN s.setbuf, relFail |-> {}, heldRel |-> heldn, heldFail |-> {}],",
+     "MC_ledger", "MC_ledger.cfg", {"MaxDepth = 4": "MaxDepth = 3"}, "Refines"),
+    ("a second send for a parked key keeps the first value (seen by the ledger refinement)", "MySensorsCore.tla",
+     "            THEN [Quiet(s, Done) EXCEPT !.setbuf = Upd(s.setbuf, KeyOf(m), [ack |-> m.ack, p |-> m.p, sup |-> FALSE])]",
+     "            THEN [Quiet(s, Done) EXCEPT !.setbuf = IF KeyOf(m) \\in DOMAIN s.setbuf THEN s.setbuf ELSE Upd(s.setbuf, KeyOf(m), [ack |-> m.ack, p |-> m.p, sup |-> FALSE])]",
+     "MC_ledger", "MC_ledger.cfg", {"MaxDepth = 4": "MaxDepth = 3"}, "LedgerInv|Refines|LedgerStepProps"),
+    ("allocate node count + 1 (seen by the id-rule refinement)", "MySensorsCore.tla",
+     "    IF hint.has THEN {hint.id} ELSE {i \\in 0..MaxNodeId : IdValid(s, i)}",
+     "    IF hint.has THEN {hint.id} ELSE {Cardinality(DOMAIN s.nodes) + 1}",
+     "MC_idrule", "MC_idrule.cfg", {}, "RuleInv|Refines|RuleStepProps"),
     ("allocate node count + 1", "MySensorsCore.tla",
      "    IF hint.has THEN {hint.id} ELSE {i \\in 0..MaxNodeId : IdValid(s, i)}",
      "    IF hint.has THEN {hint.id} ELSE {Cardinality(DOMAIN s.nodes) + 1}",
